@@ -83,8 +83,9 @@ def concretise(case, scratch, tag, with_low=False):
     return out
 
 
-def observe_read(dfs, c, scratch, eid):
-    """type --binary and extract-files on concrete case c -> two read events."""
+def observe_read(dfs, c, scratch, eid, rs=None):
+    """type --binary and extract-files on concrete case c -> two read events.  rs: list collecting (description, read-stack
+    hook events) of the type run for TraceReadStack.tla."""
     ev = []
     base = [dfs]
     for f in c["files"]:
@@ -99,7 +100,13 @@ def observe_read(dfs, c, scratch, eid):
             else:
                 segs.append(dict(lba=sg[1], len=sg[2]))
         return segs, foreign
-    o = common.run(base + ["type", "--binary", colon], timeout=30)
+    if rs is None:
+        o = common.run(base + ["type", "--binary", colon], timeout=30)
+    else:
+        import readtrace
+        o, evs = readtrace.record(base + ["type", "--binary", colon], scratch, "t%d" % eid, timeout=30, ctx=dict(vols=[[c["g"]["o"], c["g"]["L"]]]))
+        rs.append(("%s image, entry start=%d sectors=%d+%d bytes, region %r: type --binary %s (rc=%s)" %
+                   (c["kind"], c["start"], c["nsec"], c["rem"], c["g"], colon, o.rc), evs))
     segs, foreign = project(o.out)
     common_f = dict(id=eid, g=c["g"], start=c["start"], nsec=c["nsec"], rem=c["rem"], kind=c["kind"])
     ev.append(dict(common_f, e="read", cmd="type-b", rc=o.rc if o.rc is not None else -9, err=1 if o.err.strip() else 0,
